@@ -139,7 +139,9 @@ def init (r : R) : R × Option Err :=
   | some e => (r, some e)
   | none =>
     let r := if ¬ flagBlockIndependence r.flags then { r with num := 1 } else r
-    ({ r with idx := 0, data := Array.replicate (poolSize (blockSizeIndex r.flags)) 0, cum := 0 }, none)
+    -- `r.data = size.Get()`: a pooled buffer with arbitrary contents; every path overwrites `r.data`
+    -- (or empties it) before reading from it, so its initial contents are not represented
+    ({ r with idx := 0, data := #[], cum := 0 }, none)
 
 /-- `FrameDataBlock.Read` -/
 def blockRead (r : R) : (fuel : Nat) → R × Option Err
